@@ -12,6 +12,7 @@ def explicit(tier, seed):
     n = 4 if tier == "quick" else 40
     for i in range(n):
         yield {"label": "direct-strategy", "direct": "retry", "direct_seed": seed * 1000 + i, "n": 60 if tier == "quick" else 200}
+        yield {"label": "direct-strategy-concurrent", "direct": "retry-concurrent", "direct_seed": seed * 1000 + 500 + i, "n": 40 if tier == "quick" else 150}
     rng = random.Random(seed)
     i = 0
     specs = [
